@@ -168,6 +168,25 @@ func partsObjProfiles(b *partsBuilder) {
 			Length: 10,
 		}
 	}
+	// the documented use of the unbounded gyroid: it must be intersected with a bounded volume; the RESULT is
+	// a bounded shape whose box must enclose it, in either operand order and through wrappers of the gyroid
+	gyr := func() sdf.SDF3 { g, _ := sdf.Gyroid3D(v3.Vec{X: 2, Y: 2.5, Z: 3}); return g }
+	gbox := func() sdf.SDF3 { x, _ := sdf.Box3D(v3.Vec{X: 7, Y: 6, Z: 5}, 0.2); return x }
+	b.add3("Intersect3D(bounded,gyroid)", "box_gyroid", func() (sdf.SDF3, error) { return sdf.Intersect3D(gbox(), gyr()), nil })
+	b.add3("Intersect3D(bounded,gyroid)", "shifted_box_gyroid", func() (sdf.SDF3, error) {
+		return sdf.Intersect3D(sdf.Transform3D(gbox(), sdf.Translate3d(v3.Vec{X: 9, Y: -7, Z: 4})), gyr()), nil
+	})
+	b.add3("Intersect3D(bounded,gyroid)", "box_shelled_gyroid", func() (sdf.SDF3, error) {
+		sh, err := sdf.Shell3D(gyr(), 0.3)
+		if err != nil {
+			return nil, err
+		}
+		return sdf.Intersect3D(gbox(), sh), nil
+	})
+	b.add3("Intersect3D(bounded,gyroid)", "sphere_scaled_gyroid", func() (sdf.SDF3, error) {
+		sp, _ := sdf.Sphere3D(4)
+		return sdf.Intersect3D(sp, sdf.ScaleUniform3D(gyr(), 1.5)), nil
+	})
 	b.add2("obj.Angle2D", "angle", func() (sdf.SDF2, error) { return obj.Angle2D(angleEx()) })
 	b.add2("obj.Angle2D", "unequal", func() (sdf.SDF2, error) { return obj.Angle2D(angleUnequal()) })
 	b.add2("obj.Angle2D", "noroot", func() (sdf.SDF2, error) { return obj.Angle2D(angleNoRoot()) })
